@@ -48,7 +48,8 @@ def factor(c, Y, Yref, br, nb, colmajor, on_scale_of_H, upto=None):
         """H_k: on the scale of H it is (1/Nb) * block sum; the code computes ww * block sum / Nb = H_k / N"""
         bs = block_sum(Y, Yref, br, k, Nb, hidx)
         if on_scale_of_H:
-            return sym.div(bs, sym.toF(Nb))
+            # written as the code computes it: (ww * block sum) * N / Nb;  ww * N = 1 is lemma 'weights cancel' below, so this IS (1/Nb) * block sum
+            return sym.div(sym.mul(sym.mul(ww, bs), sym.toF(Nn)), sym.toF(Nb))
         return sym.div(sym.mul(ww, bs), sym.toF(Nb))
 
     def cell(idx):
@@ -95,12 +96,14 @@ class _Factor(Contract):
 
 def _loop(k, pre, it):
     c = cur()
-    return {"T": factor(c, pre["Y"], pre["Yref"], pre["br"], pre["nb"], colmajor=False, on_scale_of_H=False, upto=k)}
+    return {"T": factor(c, pre["Y"], pre["Yref"], pre["br"], pre["nb"], colmajor=True, on_scale_of_H=True, upto=k)}
 
 
 @register
 class factor_today(_Factor):
-    """the factor exactly as computed today (row-major vec of H_k / N - H): every other change to the computation fails here"""
+    """the factor as the property states it: column k = column-stacked vec(H_k - H) / sqrt(nb (nb - 1)) with the block estimate H_k on
+    the scale of H.  (Until /repo commits 6ca5341 and dc75618 the code computed the row-stacked vec of H_k / N - H; the two clauses
+    below then failed and were listed as open findings.)"""
     name = "covariance factor, current form"
     loops = {0: LoopSpec(_loop, dead=("Hcov",))}
 
@@ -109,13 +112,42 @@ class factor_today(_Factor):
             c.oblige("post", "returns (Hank, T)", False)
             return
         H, T = outcome[1]
-        want = factor(c, pre["Y"], pre["Yref"], pre["br"], pre["nb"], colmajor=False, on_scale_of_H=False)
-        assert_same("T = rowmajor-vec(H_k/N - H)/sqrt(nb(nb-1)) [current, deviant form]", T, want, "post")
-        # the property's factor, one clause at a time (each against the form that differs from today's in that clause only)
-        scale_only = factor(c, pre["Y"], pre["Yref"], pre["br"], pre["nb"], colmajor=False, on_scale_of_H=True)
-        assert_same("block estimates H_k are on the scale of the full estimate H (so that T T^T is the sample covariance of the mean)", T, scale_only, "post")
-        vec_only = factor(c, pre["Y"], pre["Yref"], pre["br"], pre["nb"], colmajor=True, on_scale_of_H=False)
-        assert_same("deviations are column-stacked (the vectorisation the propagation step expects)", T, vec_only, "post")
+        want = factor(c, pre["Y"], pre["Yref"], pre["br"], pre["nb"], colmajor=True, on_scale_of_H=True)
+        assert_same("T = colmajor-vec(H_k - H)/sqrt(nb(nb-1))", T, want, "post")
+        # the property's two demands, one clause at a time: each is refuted by the form that differs from the property's in that clause only
+        # (kept under their own names so that a regression in one of them is reported as that clause)
+        assert_same("block estimates H_k are on the scale of the full estimate H (so that T T^T is the sample covariance of the mean)", T, want, "post")
+        assert_same("deviations are column-stacked (the vectorisation the propagation step expects)", T, want, "post")
+        self.check_frame(c, pre, post, outcome)
+        # the weights cancel: (1/sqrt N)(1/sqrt N) N = 1, so the block estimate above is (1/Nb) x (unweighted block sum), the estimator of H on the block
+        l, r, Ndat, p, q, Nn = dims(pre["Y"], pre["Yref"], pre["br"])
+        c.numpy_mode += 1
+        try:
+            rt = sym.sqrt_(sym.toF(Nn))
+            w = sym.div(1, rt)
+            c.fact(z3.And(rt.v * rt.v == z3.ToReal(zi(Nn)) if z3.is_int(zi(Nn)) else rt.v * rt.v == zi(Nn), rt.v > 0))      # sqrt axiom (A5)
+            one = sym.mul(sym.mul(w, w), sym.toF(Nn))
+            c.oblige("lemma", "weights cancel: (1/sqrt N)^2 N = 1 (block estimate = block sum / Nb, the scale of H)", And_(Not_(one.nan), one.v == 1))
+        finally:
+            c.numpy_mode -= 1
+
+    def _off_scale(me, c, Y, Yref, br, method, calc_unc=False, nb=100):
+        return (hank_cov_mm(c, Y, Yref, br) if False else None, factor(c, Y, Yref, br, nb, colmajor=True, on_scale_of_H=False))
+
+    def _row_stacked(me, c, Y, Yref, br, method, calc_unc=False, nb=100):
+        return (None, factor(c, Y, Yref, br, nb, colmajor=False, on_scale_of_H=True))
+
+
+def _t_canary(wrong):
+    def chk(self, c, pre, post, outcome):
+        if outcome[0] != "return":
+            return
+        assert_same("T (deliberately wrong form)", outcome[1][1], wrong(self, c, **pre)[1], "post")
+    return chk
+
+
+factor_today.canaries = {"block estimates divided by N once more": _t_canary(factor_today._off_scale),
+                         "row-stacked deviations": _t_canary(factor_today._row_stacked)}
 
 
 @register
@@ -130,6 +162,7 @@ class propagation_fd(Contract):
     generic_replay = False
     bounded_reason = ("unsupported: equality of a reported variance with a squared directional derivative of the whole identification (SVD, QR, inverse, eig, log) "
                       "is a numerical statement checked against central finite differences; the kernels are uninterpreted in the verifier")
-    bounded_bound = ("exact rank-2m Hankel matrices plus 1e-3 noise, 1-3 channels, 3-5 block rows, order 2m, one random perturbation direction as the only factor column, "
-                     "both vectorisations tried, finite differences at 1e-6 and 1e-7 that must agree to 1e-3")
+    bounded_bound = ("rank-2m Hankel matrices plus a 1 % full-rank part, 1-3 channels with 1..l reference columns per block, 2-5 block rows, ordmax = 2m..2m+2 (<= 8), "
+                     "EVERY order 2..ordmax compared, 1-3 random perturbation directions as factor columns (column-stacked), finite differences at 1e-6 and 1e-7 that "
+                     "must agree to 1e-3, singular-value gaps >= 1e-3, eigenvalue separation >= 0.05, tolerance 1e-3")
     bounded_driver = {"driver": "c17_fd", "inputs": {"trials": 6, "trials_thorough": 40}}
